@@ -2,7 +2,7 @@ use crate::utils::{arb_arc, arb_rwlock, opt_hash, opt_packing_depth, opt_packing
 use crate::{Arc, Error, Leaf, PackedLeaf, UpdateMap, Value};
 use arbitrary::Arbitrary;
 use educe::Educe;
-use ethereum_hashing::{hash32_concat, ZERO_HASHES};
+use ethereum_hashing::{hash32_concat, ZERO_HASHES, ZERO_HASHES_MAX_INDEX};
 use parking_lot::RwLock;
 use std::collections::BTreeMap;
 use std::collections::HashMap;
@@ -247,6 +247,22 @@ impl<T: Value> Tree<T> {
             Self::Node { left, right, .. } => left.compute_len() + right.compute_len(),
             Self::Zero(_) => 0,
         }
+    }
+}
+
+/// Hash of a subtree of `depth` containing only zero chunks.
+///
+/// The pre-computed `ZERO_HASHES` table is shorter than `MAX_TREE_DEPTH`; beyond it the hash is
+/// computed iteratively.
+fn zero_hash(depth: usize) -> Hash256 {
+    if let Some(hash) = ZERO_HASHES.get(depth) {
+        Hash256::from(*hash)
+    } else {
+        let mut hash = ZERO_HASHES[ZERO_HASHES_MAX_INDEX];
+        for _ in ZERO_HASHES_MAX_INDEX..depth {
+            hash = hash32_concat(&hash, &hash);
+        }
+        Hash256::from(hash)
     }
 }
 
@@ -533,7 +549,7 @@ impl<T: Value + Send + Sync> Tree<T> {
                 }
             }
             Self::PackedLeaf(leaf) => leaf.tree_hash(),
-            Self::Zero(depth) => Hash256::from(ZERO_HASHES[*depth]),
+            Self::Zero(depth) => zero_hash(*depth),
             Self::Node { hash, left, right } => {
                 let read_lock = hash.read();
                 let existing_hash = *read_lock;
